@@ -414,3 +414,11 @@ func sortedHashes(m map[common.Hash]struct{}) []common.Hash {
 	sort.Slice(out, func(i, j int) bool { return string(out[i][:]) < string(out[j][:]) })
 	return out
 }
+
+// ViewsNumber returns the block's number in the given context.
+func (b *BlockInfo) ViewsNumber(ctx int) uint64 {
+	if v := b.Views[ctx]; v != nil {
+		return v.NumberU64(ctx)
+	}
+	return b.Number
+}
